@@ -52,7 +52,16 @@ CLASSES = (
     "3x10^7 stored values, plots of 650 000 stamps, an identically zero production record, pseudocritical temperature exactly "
     "0 F, p_frac exactly equal to p_initial, fluid parameters passed as 0-d arrays, pandas Series with permuted labels, "
     "batches sorted by each phase's own saturation, rel-perm tables made for another connate water saturation, constant "
-    "schedules above the initial pressure, PVT tables with a user `alpha` column, the fluid's table edited between calls"
+    "schedules above the initial pressure, PVT tables with a user `alpha` column, the fluid's table edited between calls, "
+    "two long runs (2x10^6 .. 2x10^7 stored values) of the same shape kept side by side, time stamps and schedules handed over as "
+    "pandas Series, bounds made of infinities / signed zeros / the largest floats in tuples, lists and arrays, the table "
+    "builder's maximum pressure as int / float / numpy integer / default with fractional temperatures, the builder's table "
+    "columns against the stand-alone correlations, child interpreters under other PYTHONHASHSEED values, call histories run "
+    "tightly with every result thrown away and single calls repeated 2-8 times (recycled object addresses), zero-size arrays "
+    "with two and three dimensions, optional numeric arguments found in signatures at run time, empty batches of records, gas "
+    "condensate tables (rows with So exactly 0 and Rv > 0), reference densities of exactly 0, flux and density recoveries "
+    "asked in turn with interpolators in between, refits with one lmfit parameter held (vary=False) and a different first "
+    "guess, single-phase fluids whose unused fields are 0 or nan"
 )
 
 os.makedirs(OUT, exist_ok=True)
